@@ -8,9 +8,14 @@ CFG = {
                    "property databases, with replicas that miss updates/tombstones/read-repairs, against a plain map model (latest non-deleted value per key, merge/replace "
                    "tag semantics, stable create revision, strictly increasing mod revision, one answer per key however many nodes answer); (b) 2-4 replicas of one shard "
                    "that each saw a subset of a history, then arbitrary pairwise repair exchanges through the real per-key repair code, against monotonicity per exchange "
-                   "and convergence after a fair closing pass; sampling is the right level because histories and exchange orders are unbounded and both oracles are exact per history"),
-    "level_note": ("trusted: the in-memory queue stand-in (request/response proto round trip, per-message unreachability), the in-memory schema registry, and the driver playing the "
-                   "Merkle-tree comparison of the gossip protocol (it decides WHICH keys are exchanged; what happens to a key is the real shard.repair / Database.Repair). "
+                   "and convergence after a fair closing pass; (c) 2-3 replicas (repair enabled) of the shards of 1-2 groups that each saw a subset of a history, then the REAL Merkle-tree gossip "
+                   "exchange (real repairGossipClient.Rev against the real RepairService handler over an in-memory stream) in tape-chosen directions until a full fair pass changes nothing, "
+                   "against monotonicity per exchange, no invented state, every replica at the highest revision of every key at the fixpoint, and one more exchange changing nothing; "
+                   "sampling is the right level because histories and exchange orders are unbounded and the oracles are exact per history"),
+    "level_note": ("trusted: the in-memory queue stand-in (request/response proto round trip, per-message unreachability), the in-memory schema registry; in repair-converge the driver plays the "
+                   "Merkle-tree comparison of the gossip protocol (it decides WHICH keys are exchanged; what happens to a key is the real shard.repair / Database.Repair); in gossip-exchange "
+                   "the tree exchange is real and the driver only plays the gossip scheduler (who talks to whom about which group/shard, when the build-tree cron task runs) over an in-memory, "
+                   "loss-free stream pair (proto round trip per message, 4096-message buffers standing in for the flow-control window; stream faults are not injected). "
                    "Operations on one key are sequential (the property quantifies over sequences); concurrent applies to one key are not explored"),
     "budget": {"quick": 40, "thorough": 900},
     "rule": ("lww-map: each seed draws 1-3 data nodes, copies, 1-2 shards, 1-2 property names x 1-3 ids, 6-36 operations (apply merge/replace/default with a tape-chosen tag subset and "
@@ -19,18 +24,37 @@ CFG = {
              "(the answer must not depend on which node answers first). long-history (1 run in 24): one key, 60-120 applies through the liaison, then queries. "
              "repair-converge: 2-4 replicas, 1-3 keys, 2-12 updates/deletes each delivered to a tape-chosen subset of replicas (update and its tombstones for older revisions independently), "
              "0-8 arbitrary exchanges (one-way push through Database.Repair or the two-step gossip exchange with send-back, duplicates included), then every ordered pair once. "
-             "Non-trivial = at least one write (lww-map) / replicas actually diverged (repair-converge); distinct = distinct canonical event-log digests"),
+             "gossip-exchange (weight 1): 2-3 replicas opened with repair enabled (tree slot count 32/1/2/5, build-tree cron hourly or never, quick build 10 min or never), 1-6 keys over 1-2 groups, "
+             "3 names (one sorting differently as a tuple and as a joined entity) and ids containing '/', blanks, spaces and non-ASCII, 1-2 shards; 2-14 updates/deletes each delivered to a tape-chosen "
+             "subset of replicas; 0-6 arbitrary exchanges (client, server, group/shard drawn; each participant's build-tree task has run or not: no tree aborts, a stale tree is compared as is); "
+             "then fair passes (every ordered pair x every group/shard, tape-chosen order, build-tree task run on both sides before each exchange) until one pass changes nothing "
+             "(bound 3 + keys x replicas passes), the convergence check, and one more tape-chosen exchange. "
+             "Non-trivial = at least one write (lww-map) / replicas actually diverged (repair-converge, gossip-exchange); distinct = distinct canonical event-log digests"),
     "expected_probes": ["fault.replica_missed_update", "fault.replica_missed_delete", "fault.replica_missed_read_repair",
                         "reach.merge_kept_old_tag", "reach.replace_dropped_tag", "reach.create_revision_checked_across_update", "reach.read_repair_delivered",
                         "reach.delete_missed_by_replica", "reach.delete_retried_after_error", "reach.key_with_100_revisions",
                         "reach.replicas_diverged", "reach.tombstone_vs_older_live", "reach.equal_revision_exchange", "reach.equal_revision_tombstone_vs_live",
-                        "reach.receiver_holds_newer", "reach.receiver_missing_key", "reach.duplicate_exchange", "reach.converged_checked"],
+                        "reach.receiver_holds_newer", "reach.receiver_missing_key", "reach.duplicate_exchange", "reach.converged_checked",
+                        "reach.gossip_replicas_diverged", "reach.gossip_stream_opened", "reach.gossip_root_matched", "reach.gossip_trees_differed", "reach.gossip_slots_sent",
+                        "reach.gossip_leaves_compared", "reach.gossip_client_sent_property", "reach.gossip_server_sent_back_newer", "reach.gossip_tombstone_shipped",
+                        "reach.gossip_id_with_slash_shipped", "reach.gossip_client_updated", "reach.gossip_server_updated", "reach.gossip_id_with_slash_repaired",
+                        "reach.gossip_tree_not_rebuilt_before_exchange", "reach.gossip_fixpoint_pass", "reach.gossip_converged_checked"],
+    # gossip-exchange has weight 1 of 25 (a handful of runs in a quick check of the whole property); its rarer probes are counted but not demanded there
+    # (all non-zero with --scenario gossip-exchange): reach.gossip_property_missing_sent, reach.gossip_server_sent_missing_property, reach.gossip_slot_missing_on_server,
+    # reach.gossip_missing_key_delivered, reach.gossip_tombstone_propagated, reach.gossip_both_sides_updated_in_one_exchange, reach.gossip_aborted_no_tree,
+    # reach.gossip_server_tree_not_found
     "real_vs_stub": {
         "real": ["banyand/liaison/grpc propertyServer Apply/Delete/Query (merge/replace, create/mod revision, dedup by revision, sorted dedup, read-repair queue)",
                  "pkg/node roundRobinSelector + liaison clusterNodeService (replica placement)",
-                 "banyand/property update/delete/query/repair listeners", "banyand/property/db OpenDB, shards, update/delete/search, shard.repair, gossip queryProperty (bluge index on tmpfs)"],
+                 "banyand/property update/delete/query/repair listeners", "banyand/property/db OpenDB, shards, update/delete/search, shard.repair, gossip queryProperty (bluge index on tmpfs)",
+                 "gossip-exchange: banyand/property/db Merkle-tree repair exchange end to end: repairScheduler.doBuildTree (file snapshot through Database.TakeSnapShot, buildTree, tree composer/file "
+                 "reader), repairGossipClient.Rev (sendTreeSummary, root/slot/leaf comparison, sendPropertyMissing, queryPropertyAndSendToServer, executeRepairWithBudget, tree rebuild after updates) and "
+                 "repairGossipServer.Repair (combineTreeSummary, sendDifferSlots, processPropertySync, processPropertyMissing), the generated RepairService request/response messages (proto round trip)"],
         "stub": ["queue pub/sub + gRPC (in-memory stand-in: proto round trip of request and response, listener invoked inline)", "schema registry (simmeta + in-memory property schemas)",
-                 "gossip transport, scheduler and Merkle state tree (the driver picks the keys and the direction of every exchange)", "clock (synctest)"],
+                 "repair-converge: gossip transport, scheduler and Merkle state tree (the driver picks the keys and the direction of every exchange)",
+                 "gossip-exchange: banyand/property/gossip service (membership, node selection, propagation/scheduler, tracing) and the repair-trigger cron are played by the driver; the gRPC connection "
+                 "of RepairService.Repair is an in-memory loss-free stream pair installed through the generated NewRepairServiceClientHook; the snapshot function is the one-liner of "
+                 "banyand/property/service.go re-stated over Database.TakeSnapShot", "clock (synctest)"],
     },
     "assumptions": STD_ASSUME + ["a replica that misses a message is unreachable for that message only (the sender sees a connection error or skips it as inactive); lost responses are not modelled",
                                  "at equal revision a tombstone is the later write (a delete of revision R happens after R was written)"],
